@@ -48,7 +48,7 @@ impl FromStr for Curve {
     type Err = Error;
 
     fn from_str(curve: &str) -> Result<Self, Self::Err> {
-        match &curve.to_uppercase()[..] {
+        match &curve.to_ascii_uppercase()[..] {
             "BN254" => Ok(Curve::Bn254),
             "BLS12_381" => Ok(Curve::Bls12_381),
             "GOLDILOCKS" => Ok(Curve::Goldilocks),
